@@ -331,6 +331,12 @@ class WorldScenario:
             if r.chance(0.3):
                 lk["dangling"] = True
             add("links", lk)
+            multi = [t for t in w.model.targets.values() if len(t.outputs) > 1]
+            if multi:
+                t_ = r.pick(multi)
+                a, b = r.pick(t_.outputs), r.pick(t_.outputs)
+                if a != b:  # two outputs of ONE target (across targets a job would write into another target's file)
+                    add("links", {"op": "hardlink_output", "f": a, "to": b}, 0.5)
             if w.model.sources:
                 add("links", {"op": "link_source", "f": r.pick(w.model.sources), "dst_age": r.pick([0, 1, 2, 5, 9]),
                               "link_age": r.pick([0, 0, 3, 12])}, 0.5)
@@ -465,6 +471,14 @@ class WorldScenario:
                     ns = int(round((t0 - op["link_age"] * g) * 1e9))
                     os.utime(p, ns=(ns, ns), follow_symlinks=False)
                 w.probe("dangling_links" if op.get("dangling") else "symlinked_outputs" if kind == "link_output" else "symlinked_sources")
+        elif kind == "hardlink_output":
+            # two declared outputs become two names of one file (ln a b / cp -l)
+            src, dst = w.path(op["to"]), w.path(op["f"])
+            if os.path.exists(src) and not os.path.islink(src):
+                if os.path.lexists(dst):
+                    fsx._real_remove(dst)
+                os.link(src, dst)
+                w.probe("hardlinked_outputs")
         elif kind == "edit_spec":
             t = w.model.targets.get(op["t"])
             if t is not None:
